@@ -132,6 +132,18 @@ def explore(prog, limit=200000):
                         l = list(cvp); l[t] = 0
                         push(mown=setm(0, t), cvp=tuple(l))
                 # ph == 1: blocked
+            elif k == "cvwaitz":
+                ph = cvp[t]
+                if ph == 0:
+                    if mdata[0] != 0:
+                        push()          # predicate already true
+                    else:
+                        l = list(cvp); l[t] = 1
+                        succs.append((pcs, res, setm(0, None), mdata, rww, rwr, rwd, q, tok, atom, cvq + (t,), tuple(l)))
+                elif ph == 2:
+                    if mown[0] is None:
+                        l = list(cvp); l[t] = 0
+                        succs.append((pcs, res, setm(0, t), mdata, rww, rwr, rwd, q, tok, atom, cvq, tuple(l)))  # re-check predicate
             elif k == "notify_one":
                 if cvq:
                     # any waiter may be woken (validity); FIFO is one of them
